@@ -78,6 +78,8 @@ func unreach(i, j int) Event       { return Event{Kind: EvUnreachable, Node: uin
 func reportSnap(i, j, f int) Event { return Event{Kind: EvReportSnap, Node: uint8(i), Peer: uint8(j), Arg: uint16(f)} }
 func forget(i int) Event           { return Event{Kind: EvForgetLeader, Node: uint8(i)} }
 func pauseApply(i, on int) Event   { return Event{Kind: EvPauseApply, Node: uint8(i), Arg: uint16(on)} }
+func holdFrom(i int) Event         { return Event{Kind: EvHoldFrom, Node: uint8(i)} }
+func flush() Event                 { return Event{Kind: EvFlush} }
 func pauseAppend(i, on int) Event  { return Event{Kind: EvPauseAppend, Node: uint8(i), Arg: uint16(on)} }
 func confMixed(i, k, n int) Event  { return Event{Kind: EvProposeConf, Node: uint8(i), Peer: uint8(n), Arg: uint16(k)} }
 func confMixedLast(i, k, n int) Event {
@@ -372,6 +374,15 @@ func scriptReadJointShrink() []Event {
 	return seq(camp(1), prop(1), conf(1, 0), read(1), read(2), prop(1), read(1), conf(1, 1), read(1), prop(1))
 }
 
+// scriptReadStaleAcks: five voters; a read stays half-acknowledged when its leader is
+// deposed; the same node leads again later, is partitioned into a minority while a
+// new leader commits, and is asked to read.
+func scriptReadStaleAcks() []Event {
+	return seq(camp(1), prop(1), cut(1, 3), cut(1, 4), cut(1, 5), read(1), heal(),
+		cut(3, 2), cut(3, 4), cut(3, 5), camp(3), heal(), camp(1), prop(1),
+		cut(1, 2), cut(1, 3), cut(1, 4), cut(5, 2), cut(5, 3), cut(5, 4), camp(2), prop(2), read(1), read(5), heal(), read(1))
+}
+
 func scriptReadConf() []Event {
 	return seq(camp(1), prop(1), read(2), conf(1, mRemove1), read(1), read(2), camp(2), read(3), prop(2), read(1))
 }
@@ -532,7 +543,18 @@ func poolElection(tier string) (p pool) {
 		p.bfs = append(p.bfs, bfsDueling(f, 3, 2, 3), bfsDueling(f, 3, 2, 3, int(BDup), 1), bfsDueling(f, 3, 2, 3, int(BCrash), 1))
 	}
 	p.bfs = append(p.bfs, bfsCandidateCrash(asyncF), bfsCandidateCrash(syncF), bfsPrevoteCrash()) // weight raised in Jobs()
+	for _, f := range []feat{syncF, pvF, asyncF} {
+		p.dd = append(p.dd, ddScn("vote-only-crash", 3, ids(3), f, scriptVoteOnlyCrash(), devK(tier), defaultFaults...))
+	}
 	return
+}
+
+// scriptVoteOnlyCrash: a stale candidate and an up-to-date candidate campaign in the
+// same term (the second campaign is scripted, "early" execution is a deviation); a
+// voter rejects the first (adopting the term without voting), grants the second in a
+// Ready that changes nothing but the vote, and crashes losing unsynced writes.
+func scriptVoteOnlyCrash() []Event {
+	return seq(camp(1), isolate(2), prop(1), heal(), holdFrom(2), holdFrom(3), camp(2), camp(3), flush(), crash(1, CrashLoseUnsynced), heal(), prop(3), crash(3, CrashLoseUnsynced), camp(1), prop(1))
 }
 
 // bfsCandidateCrash: node 1 campaigns (twice at most), may crash once at any point
@@ -586,8 +608,13 @@ func poolSnapshot(tier string) (p pool) {
 			ddScn("snapshot", 3, ids(3), f, scriptSnapshot(), k, fl...),
 			ddScn("snapshot-restart", 3, ids(3), f, scriptSnapshotRestart(), k, fl...),
 			split(ddScn("snapshot", 3, ids(3), f, scriptSnapshot(), k, fl...)),
-			tickSnap(ddScn("snapshot-twice", 3, ids(3), f, scriptSnapshotTwice(), k+1, int(BDelay), 1, int(BDup), 1)),
+			tickSnap(ddScn("snapshot-twice", 3, ids(3), f, scriptSnapshotTwice(), k+1, int(BDelay), 1, int(BDup), 1, int(BPause), 1)),
 			tickSnap(ddScn("snapshot-divergent", 3, ids(3), f, scriptSnapshotDivergent(), k, fl...)),
+			func() *Scenario {
+				s := split(tickSnap(ddScn("snapshot-slow", 3, ids(3), f, scriptSnapshotTwice(), k, int(BDup), 1, int(BPause), 1, int(BDrop), 1)))
+				s.SlowSnap = true
+				return s
+			}(),
 		)
 		p.bfs = append(p.bfs, bfsSnapshot(f, int(BTick), 1), bfsPagination(f, 60))
 		if f.async {
@@ -644,6 +671,7 @@ func poolRead(tier string) (p pool) {
 		p.dd = append(p.dd, rc)
 		one := ddScn("read-singleton", 1, ids(1), f, scriptReadSingleton(), k+1, int(BRead), 1, int(BCrash), 1, int(BPropose), 1)
 		p.dd = append(p.dd, one)
+		p.dd = append(p.dd, ddScn("read-stale-acks", 5, ids(5), f, scriptReadStaleAcks(), k, int(BRead), 1, int(BDrop), 1, int(BDup), 1))
 		js := ddScn("read-joint-shrink", 3, ids(3), f, scriptReadJointShrink(), k, int(BRead), 1, int(BDrop), 1, int(BCampaign), 1, int(BDelay), 1)
 		js.ConfMenu = []ConfSpec{{Transition: pb.ConfChangeTransitionJointExplicit, Changes: "r2 r3"}, {}}
 		p.dd = append(p.dd, js)
